@@ -48,9 +48,10 @@ INFO['C06'] = dict(
          'solve_trust_region_minimization and dogleg_step is audited against dense references (H from hess-vec columns, M from '
          'the factorised preconditioner). non-trivial / distinct as C01',
     sim_time_unit='reported solver iterates', components=_SOLVER_COMPONENTS,
-    probe_names=['cg:boundary', 'cg:neg curve', 'cg:interior', 'cg:interior_', 'cg:preconditioned_norm', 'dogleg'],
+    probe_names=['cg:boundary', 'cg:neg curve', 'cg:interior', 'cg:interior_', 'cg:preconditioned_norm', 'dogleg',
+                 'treigen:interior', 'treigen:boundary', 'treigen:hard_case'],
     assumptions=COMMON_ASSUME + [
-        'in-situ only: the sub-problems audited are those the simulated drivers pose (n <= 40); treigen.solve and direct synthetic calls are NOT covered',
+        'in-situ only: the sub-problems audited are those the simulated drivers pose (CG n <= 40; treigen reduced models of dimension <= 4 through the sub-space driver); direct synthetic calls are NOT covered',
         'preconditioned-norm radius clauses are asserted (to 5e-2) only where the oracle\'s own CG keeps conjugacy to 1e-6; otherwise skipped and counted',
         'interior-residual clause skipped where the recurrence-drift allowance exceeds 10% of the tolerance'])
 INFO['C19'] = dict(
@@ -60,7 +61,7 @@ INFO['C19'] = dict(
     probe_names=['scaled_compared'],
     assumptions=COMMON_ASSUME + [
         'warm-start clause uses the tolerance captured at the WarmStart.cg seam and is skipped when cg reports non-convergence, is truncated by the injector, or the Hessian is not PD',
-        'hand-over clause for the AL / bound-constrained / SPG drivers is asserted inside the C04 / C05 engines (violations are reported there as C19 seen-in-other-engine)'])
+        'every 12th run index is an al_sim history and every 12th an spg_sim history, whose hand-over assertions (objective.p identity, flag under the new parameters) count for this check'])
 INFO['C04'] = dict(
     rule='one evaluation = objective family (Qc/Qi, n<=8) + up to 6 inequality constraints (linear, concave-quadratic ball, smooth '
          'nonlinear) arranged to be active / weakly active / redundant / infeasible at the start + up to 4 ops (al_solve, bound_solve, '
@@ -77,7 +78,7 @@ INFO['C05'] = dict(
          'interior, on faces or at a vertex + up to 4 ops (spg_min, spg_solve with parameter change, restart) with caps and Cholesky '
          'faults; project / project_onto_tr monitored in situ. non-trivial = at least one reported iterate',
     sim_time_unit='reported solver iterates', components={'real': ['optimism.TrustRegionSPG', 'optimism.Objective', 'optimism.WarmStart', 'optimism.SparseCholesky', 'scipy.optimize.brentq'], 'stub': _SOLVER_COMPONENTS['stub']},
-    probe_names=['spg:no_cauchy_point', 'project_tr:far', 'project_tr:near'],
+    probe_names=['spg:no_cauchy_point', 'project_tr:far', 'project_tr:near', 'spg:model_increase', 'spg:model_increase_significant'],
     assumptions=COMMON_ASSUME + [
         'trust-region-projection radius clause allows brentq\'s own default xtol/rtol on the segment parameter (4*(2e-12+4eps)*|target-centre|) and is skipped where that exceeds 1% of the radius',
         'RuntimeError("No acceptable Cauchy point") aborts the op; iterates reported before it are still judged'])
@@ -89,7 +90,7 @@ INFO['C07'] = dict(
     sim_time_unit='forward load steps', components={'real': ['optimism.inverse.NonlinearSolve (both custom-VJP rules)'] + _SOLVER_COMPONENTS['real'], 'stub': _SOLVER_COMPONENTS['stub']},
     probe_names=['ift_compared', 'ift_bound_loose'],
     assumptions=COMMON_ASSUME + [
-        'component level only in this check; FE-level helper VJPs (MechanicsInverse, AdjointFunctionSpace) are not covered by a registered check yet',
+        'every 24th run index is an FE-level history (fe_app_sim statics) ending with the MechanicsInverse / AdjointFunctionSpace helper audit against dense jacfwd Jacobians of the public forward maps',
         'IFT premise: forward solve converged (|grad| <= 10 tol) and Hessian PD at the returned solution, else skipped'])
 _MAT = {'real': ['optimism.material.J2Plastic', 'optimism.material.Hardening', 'optimism.ScalarRootFind', 'optimism.TensorMath',
                  'optimism.material.HyperViscoelastic', 'optimism.material.MultiBranchHyperViscoelastic', 'jit(vmap(...)) over points'],
